@@ -196,7 +196,11 @@ func (l *leanTie) askMatch(al, bl []mcmd) {
 		}
 		return out
 	}
-	calls, aborted := cisco.VerifMatchCryptoMap(conv(al), conv(bl))
+	l.compareMatch(conv(al), conv(bl), al, bl)
+}
+
+func (l *leanTie) compareMatch(ha, hb []cisco.VerifVpnCmd, al, bl []mcmd) {
+	calls, aborted := cisco.VerifMatchCryptoMap(ha, hb)
 	impl := "abort"
 	if !aborted {
 		var cs []string
@@ -222,6 +226,37 @@ func (l *leanTie) askMatch(al, bl []mcmd) {
 	if ans != impl {
 		l.res.Disagree("vpn-matchCryptoMap", map[string]any{"encoded": line}, impl, ans)
 	}
+}
+
+// askMatchIOS: one command per entry, the peer is found in the sub-commands (getPeer: `len(l) == 1 && l[0].sub != nil`).
+func (l *leanTie) askMatchIOS(an string, ae []*iosEntry, bn string, be []*iosEntry) {
+	conv := func(name string, es []*iosEntry) ([]cisco.VerifVpnCmd, []mcmd) {
+		var hc []cisco.VerifVpnCmd
+		var mc []mcmd
+		for i, e := range es {
+			x := cisco.VerifVpnCmd{ID: i, Name: name, Seq: e.Seq, Parsed: "crypto map $NAME $SEQ ipsec-isakmp"}
+			peer := ""
+			for _, s := range e.Subs {
+				w := strings.Fields(s)
+				switch {
+				case len(w) == 5 && w[2] == "access-group":
+					x.Sub = append(x.Sub, "set ip access-group $REF "+w[4])
+				case len(w) == 3 && w[1] == "peer":
+					x.Sub = append(x.Sub, s)
+					if peer == "" {
+						_, p, _ := strings.Cut(s, "set peer ")
+						peer = "S:" + p
+					}
+				}
+			}
+			hc = append(hc, x)
+			mc = append(mc, mcmd{name, "ipsec-isakmp", peer, e.Seq})
+		}
+		return hc, mc
+	}
+	ha, ma := conv(an, ae)
+	hb, mb := conv(bn, be)
+	l.compareMatch(ha, hb, ma, mb)
 }
 
 // matchTie feeds the crypto maps of the case (paired by position) to the bare function.
